@@ -1,5 +1,6 @@
 import Glas.Props.C01
 import Glas.Props.C02Marks
+import Glas.Props.C02Stuck
 #print axioms Glas.Props.C01.lex_tiles
 #print axioms Glas.Props.C01.glas_noSkip
 #print axioms Glas.Props.C01.exec_advances
@@ -11,3 +12,4 @@ import Glas.Props.C02Marks
 #print axioms Glas.Props.C01.buildTree_rootStart_needed
 #print axioms Glas.Props.C01.glas_rootStart
 #print axioms Glas.Props.C02Marks.C01_total
+#print axioms Glas.Props.C02Stuck.C01_always
